@@ -12,8 +12,12 @@ package main
 
 import (
 	"go/ast"
+	"go/parser"
 	"go/token"
+	"os"
+	"path/filepath"
 	"sort"
+	"strings"
 )
 
 func c18CalleeName(fset *token.FileSet, ce *ast.CallExpr) string {
@@ -198,4 +202,116 @@ func genC18Facts() {
 		return true
 	})
 	facts["c18_commandgetkeys_calls"] = map[string]interface{}{"calls": cgCalls, "loops_or_goroutines": loops}
+
+	facts["c18_process_globals"] = c18ProcessGlobals()
+}
+
+// c18ProcessGlobals: the process-global state the unit builder and the unit commit can reach - for the packages they
+// live in and call into (key tables, slot functions, control-key constructors, the cluster client's router), every
+// package-level `var` that some function other than init() WRITES (assignment, ++/--, index / field assignment, address
+// taken) or calls a mutating method of (sync.Once.Do, sync.Map.Store / LoadOrStore / Delete / Swap, atomic Store / Add /
+// CompareAndSwap / Swap, sync.Pool.Put / Get), as "<file>:<var>:<function>:<how>". Metric vectors (…Counter / …Gauge
+// initialised by metric.New…) are left out by their initialiser. First / concurrent use of each listed variable has a
+// case in the harness (C18first for the slot-tag table).
+func c18ProcessGlobals() []string {
+	files := []string{"syncer/bisync.go", "syncer/bisync_rdb.go", "pkg/redis/checkpoint/bisync.go", "pkg/redis/keyspec/keyspec.go",
+		"pkg/redis/slot.go", "pkg/digest/crc16.go", "pkg/filter/filter.go", "pkg/redis/client/cluster/txn_batcher.go"}
+	mut := map[string]bool{"Do": true, "Store": true, "LoadOrStore": true, "Delete": true, "Swap": true, "CompareAndSwap": true, "Add": true,
+		"Put": true, "Get": true, "LoadAndDelete": true, "CompareAndDelete": true, "Range": false}
+	var out []string
+	for _, rel := range files {
+		fset := token.NewFileSet()
+		path := filepath.Join(*repo, rel)
+		if _, err := os.Stat(path); err != nil {
+			die("c18_process_globals: %s not found", rel)
+		}
+		f, err := parser.ParseFile(fset, path, nil, 0)
+		if err != nil {
+			die("parse %s: %v", rel, err)
+		}
+		globals := map[string]bool{}
+		for _, d := range f.Decls {
+			gd, ok := d.(*ast.GenDecl)
+			if !ok || gd.Tok != token.VAR {
+				continue
+			}
+			for _, sp := range gd.Specs {
+				vs := sp.(*ast.ValueSpec)
+				metric := false
+				for _, v := range vs.Values {
+					if strings.HasPrefix(c10Render(fset, v), "metric.New") {
+						metric = true
+					}
+				}
+				if metric {
+					continue
+				}
+				for _, n := range vs.Names {
+					if n.Name != "_" {
+						globals[n.Name] = true
+					}
+				}
+			}
+		}
+		for _, d := range f.Decls {
+			fd, ok := d.(*ast.FuncDecl)
+			if !ok || fd.Body == nil || (fd.Name.Name == "init" && fd.Recv == nil) {
+				continue
+			}
+			isGlobal := func(e ast.Expr) (string, bool) {
+				id := c18RootIdent(e)
+				// go/parser resolves identifiers within the file: a package-level variable of THIS file has Obj.Decl = its ValueSpec
+				if id == nil || !globals[id.Name] || id.Obj == nil {
+					return "", false
+				}
+				if _, ok := id.Obj.Decl.(*ast.ValueSpec); !ok {
+					return "", false
+				}
+				// a local `var x` is a ValueSpec too: it is local iff declared inside this function
+				if vs := id.Obj.Decl.(*ast.ValueSpec); vs.Pos() >= fd.Pos() && vs.End() <= fd.End() {
+					return "", false
+				}
+				return id.Name, true
+			}
+			seen := map[string]bool{}
+			note := func(name, how string) {
+				k := rel + ":" + name + ":" + fd.Name.Name + ":" + how
+				if !seen[k] {
+					seen[k] = true
+					out = append(out, k)
+				}
+			}
+			ast.Inspect(fd.Body, func(n ast.Node) bool {
+				switch x := n.(type) {
+				case *ast.AssignStmt:
+					if x.Tok != token.DEFINE {
+						for _, l := range x.Lhs {
+							if name, ok := isGlobal(l); ok {
+								note(name, "assigned")
+							}
+						}
+					}
+				case *ast.IncDecStmt:
+					if name, ok := isGlobal(x.X); ok {
+						note(name, x.Tok.String())
+					}
+				case *ast.UnaryExpr:
+					if x.Op == token.AND {
+						if name, ok := isGlobal(x.X); ok {
+							note(name, "address-taken")
+						}
+					}
+				case *ast.CallExpr:
+					if sel, ok := x.Fun.(*ast.SelectorExpr); ok && mut[sel.Sel.Name] {
+						if name, ok := isGlobal(sel.X); ok {
+							note(name, "."+sel.Sel.Name)
+						}
+					}
+				}
+				return true
+			})
+		}
+	}
+	sort.Strings(out)
+	return out
 }
